@@ -76,7 +76,8 @@ def build_table(tree, table, prog):
 
 def strip_f(t):
     if isinstance(t, dict):
-        return {k: strip_f(v) for k, v in t.items() if k != "_f"}
+        # "_f" is the field-order list of a struct; a float constant is {"_f": "<text>"} and must stay
+        return {k: strip_f(v) for k, v in t.items() if not (k == "_f" and isinstance(v, list))}
     if isinstance(t, list):
         return [strip_f(x) for x in t]
     return t
